@@ -13,6 +13,7 @@ s=open(f).read()
 n=len(re.findall(old,s))
 if n!=1:
     print(f"MUTATION-PATTERN-MATCHES {n} times (need 1)"); sys.exit(3)
+new=new.replace('\\n','\n')
 open(f,'w').write(re.sub(old,lambda m:new,s,count=1))
 PY
 rc=$?
